@@ -16,7 +16,7 @@ func init() {
 		Rule: "(a) closure: breadth-first search over canonical model states from the fresh tracker over the relational-skeleton universe (nick names {\"\", me, a, b}, channels {\"\", #x, #y}, privileges {none,+o}); " +
 			"every new state is rebuilt on a fresh real tracker by replaying its path, every interface method is applied with every argument combination over the universe, and after every step the return value and " +
 			"the full query sweep (Me, GetNick, GetChannel, IsOn over all names) are compared with the relational model; (b) PRNG sequences of 200..2000 operations over 8 nicks x 5 channels with all attributes " +
-			"(NickInfo, NickModes, Topic, ChannelModes over a pool of mode strings). The snapshot returned by DelNick / DelChannel carries no memberships (the model's after the deletion). distinct_nontrivial = distinct canonical model states visited in which a real tracker was compared; exhaustive only when the closure completed.",
+			"(NickInfo, NickModes, Topic, ChannelModes over a pool of mode strings). The snapshot returned by DelNick / DelChannel carries no memberships (the model's after the deletion). Mode strings include ban-list letters with masks (+b, -b, +bb, +be, +I). A formatting logger is installed (the tracker logs from inside its critical sections) and a call into the tracker that never returns is reported with a dead-state proof. distinct_nontrivial = distinct canonical model states visited in which a real tracker was compared; exhaustive only when the closure completed.",
 		Assumptions: []string{
 			"left open by the statement and therefore not judged: ChannelModes calls whose outcome depends on which argument a privilege change for a non-member or a key removal consumes (skipped, counted), " +
 				"ReNick to the empty name (model follows the implementation), membership maps inside values returned by DelNick/DelChannel",
